@@ -7,3 +7,7 @@ pub(crate) mod store;
 pub mod service;
 
 pub use service::{IndexerHandle, IndexerService};
+
+/// Verification hooks (feature `verif-hooks`, off by default).
+#[cfg(feature = "verif-hooks")]
+pub mod verif;
